@@ -784,6 +784,8 @@ class UnitDatabase(Singleton):
             The default category for the added unit (if any).
         """
         assert quantity_type is not None
+        if quantity_type.__class__ != str:
+            raise TypeError("Only str is accepted. %s is not." % quantity_type.__class__)
         if unit.__class__ != str:
             raise TypeError("Only str is accepted. %s is not." % unit.__class__)
 
